@@ -122,6 +122,7 @@ def run(ctx):
             S.invert()
             name += " inverted"
         J = S.jordans[0]
+        micro_offset_points(ctx, S, name, 6 if ctx.quick else 20)
         poly = dense_poly(J, 500 if ctx.quick else 2000)
         ccw = float(J) > 0
         k = 0
@@ -153,6 +154,36 @@ def run(ctx):
                 for flag in (True, False):
                     ctx.check(S.contains_point(p, flag) == (mm == "T"), "curved shape: membership differs from the exact model of the subdivided winding number at a point certified off the boundary",
                               {"shape": name, "point": p, "boundary": flag}, mm == "T", S.contains_point(p, flag))
+
+
+def micro_offset_points(ctx, S, name, k):
+    """points a few microns (6e-6 … 2e-5, absolute) off a curved boundary, on both sides: outside the 1e-6 on-curve tolerance but between a short piece
+    of the curve and its chord for any reasonable flatness threshold.  Truth = the exact model of the subdivided winding number at points that carry
+    the off-boundary certificate (C02b)."""
+    rng, drv = ctx.rng, ctx.drv
+    J = S.jordans[0]
+    segs = [sg for sg in J.segments if sg.degree > 1]
+    done = 0
+    for _ in range(8 * k):
+        if done >= k or not segs:
+            break
+        sg = rng.choice(segs)
+        t = rng.uniform(0.05, 0.95)
+        p0 = sg(t); d = sg.derivate()(t)
+        L = math.hypot(float(d[0]), float(d[1]))
+        if L == 0:
+            continue
+        off = rng.choice([6e-6, 9e-6, 1.3e-5, 2e-5]) * rng.choice([1, -1])
+        p = (float(p0[0]) + off * float(d[1]) / L, float(p0[1]) - off * float(d[0]) / L)
+        mm, cert = drv.ask(f"memc {core.eshape(S)} {core.ept(p)}").split()
+        if cert != "T":
+            ctx.count("micro-offset-uncertified"); continue
+        done += 1
+        ctx.case("curved-micro-offset", (name, round(t, 9), off))
+        for flag in (True, False):
+            got = S.contains_point(p, flag)
+            ctx.check(got == (mm == "T"), "curved shape: a point a few microns off the boundary is on the wrong side (exact model of the subdivided winding number)",
+                      {"shape": name, "t": t, "offset": off, "point": p, "boundary": flag}, mm == "T", got)
 
 
 def normal_offset_family(ctx):
